@@ -143,7 +143,7 @@ class BuildError(Exception):
 # ---------------------------------------------------------------------------------------------
 # running the real binary
 
-def run_cli(src, files=None, extra_args=(), env=None, cwd=None, name='t', preexec=None, keep=False):
+def run_cli(src, files=None, extra_args=(), env=None, cwd=None, name='t', preexec=None, keep=False, prefill=None):
     """Compile `src` (bytes) with the real binary in a scratch directory.
     Returns dict(rc, stdout, pcap (bytes or None), dir listing)."""
     d = tempfile.mkdtemp(prefix='rsv')
@@ -154,6 +154,8 @@ def run_cli(src, files=None, extra_args=(), env=None, cwd=None, name='t', preexe
         with open(inp, 'wb') as f: f.write(src)
         for fn, data in (files or {}).items():
             with open(os.path.join(ind, fn), 'wb') as f: f.write(data)
+        if prefill is not None:     # something is already at the output path (an older, possibly longer, file)
+            with open(os.path.join(outd, name + '.pcap'), 'wb') as f: f.write(prefill)
         e = dict(os.environ if env is None else env)
         p = subprocess.run([CLI] + list(extra_args) + ['--out-dir', outd, inp], capture_output=True,
                            cwd=cwd or ind, env=e, timeout=120, preexec_fn=preexec)
